@@ -193,40 +193,41 @@ theorem threadMapOf_entries (f : V2File) : EndToEnd.threadMapOf (f.threads.map t
 
     Full statement without `FirstByteNonZero` is false for the code as it is (known finding K1, `v2_pad_eats_record`);
     the thread map half needs no such hypothesis: `e2e_threadmap_of_encoded`. -/
-theorem e2e_dump_of_encoded (f : V2File) (wf : f.WF) (h0 : FirstByteNonZero f) :
-    EndToEnd.dumpOf (encodeV2 f) =
+theorem e2e_dump_of_encoded (plist : Bytes → Option PView) (f : V2File) (wf : f.WF) (h0 : FirstByteNonZero f) :
+    EndToEnd.dumpOf plist (encodeV2 f) =
       .ok ({ threadMap := EndToEnd.threadMapOf (f.threads.map toEntry), events := f.recs.map specDecode }, none) :=
-  EndToEnd.dumpOf_encoded f wf h0
+  EndToEnd.dumpOf_encoded plist f wf h0
 
 /-- the same with the thread map written out. -/
-theorem e2e_dump_of_encoded' (f : V2File) (wf : f.WF) (h0 : FirstByteNonZero f) :
-    EndToEnd.dumpOf (encodeV2 f) = .ok ({ threadMap := fileThreadMap f, events := f.recs.map specDecode }, none) := by
-  rw [e2e_dump_of_encoded f wf h0, threadMapOf_entries]
+theorem e2e_dump_of_encoded' (plist : Bytes → Option PView) (f : V2File) (wf : f.WF) (h0 : FirstByteNonZero f) :
+    EndToEnd.dumpOf plist (encodeV2 f) =
+      .ok ({ threadMap := fileThreadMap f, events := f.recs.map specDecode }, none) := by
+  rw [e2e_dump_of_encoded plist f wf h0, threadMapOf_entries]
 
 /-- For every well-formed v2 file (NO first-byte hypothesis) the dump is readable and the trace layer receives the
     file's thread map. -/
-theorem e2e_threadmap_of_encoded (f : V2File) (wf : f.WF) :
-    ∃ d c, EndToEnd.dumpOf (encodeV2 f) = .ok (d, c) ∧ d.threadMap = fileThreadMap f := by
-  obtain ⟨d, c, h, htm⟩ := EndToEnd.dumpOf_encoded_threadMap f wf
+theorem e2e_threadmap_of_encoded (plist : Bytes → Option PView) (f : V2File) (wf : f.WF) :
+    ∃ d c, EndToEnd.dumpOf plist (encodeV2 f) = .ok (d, c) ∧ d.threadMap = fileThreadMap f := by
+  obtain ⟨d, c, h, htm⟩ := EndToEnd.dumpOf_encoded_threadMap plist f wf
   exact ⟨d, c, h, by rw [htm, threadMapOf_entries]⟩
 
 /-- **The lines of an encoded file.**  Under the same hypotheses the lines `formatted_traces` yields for the file's bytes
     are the lines of the line builder over `traces` of (the file's thread map, the decodings of the file's records), and
     the iteration ends with the exception of the trace layer only (rendering or decoding) — the container contributes
     neither an event nor an exception of its own. -/
-theorem e2e_lines_of_encoded (env : Trace.Env) (obj : TracePipeline.Obj) (sh : Format.Show) (f : V2File) (wf : f.WF)
-    (h0 : FirstByteNonZero f) :
+theorem e2e_lines_of_encoded (env : Trace.Env) (obj : TracePipeline.Obj) (sh : Format.Show)
+    (plist : Bytes → Option PView) (f : V2File) (wf : f.WF) (h0 : FirstByteNonZero f) :
     let res := (TracePipeline.traces env obj
       { threadMap := fileThreadMap f, events := f.recs.map specDecode }).1
-    EndToEnd.formattedTraces env obj sh (encodeV2 f) =
+    EndToEnd.formattedTraces env obj sh plist (encodeV2 f) =
       ((EndToEnd.formatAll sh res.traces).1,
        match (EndToEnd.formatAll sh res.traces).2 with
        | some e => some e
        | none => res.err) := by
   intro res
-  have h := e2e_dump_of_encoded' f wf h0
-  have h1 := EndToEnd.formattedTraces_lines env obj sh _ _ _ h
-  have h2 := EndToEnd.formattedTraces_err env obj sh _ _ _ h
+  have h := e2e_dump_of_encoded' plist f wf h0
+  have h1 := EndToEnd.formattedTraces_lines env obj sh plist _ _ _ h
+  have h2 := EndToEnd.formattedTraces_err env obj sh plist _ _ _ h
   refine Prod.ext h1 ?_
   rw [h2]
   show (match (EndToEnd.formatAll sh res.traces).2 with
@@ -241,12 +242,12 @@ theorem e2e_lines_of_encoded (env : Trace.Env) (obj : TracePipeline.Obj) (sh : F
 /-- the example file of `Proofs/EndToEnd` (two entries for thread 7, four bytes of padding, six records) meets the
     hypotheses; its six lines. -/
 example :
-    EndToEnd.dumpOf (encodeV2 EndToEnd.exFile) =
+    EndToEnd.dumpOf EndToEnd.noPlist (encodeV2 EndToEnd.exFile) =
       .ok ({ threadMap := fileThreadMap EndToEnd.exFile, events := EndToEnd.exFile.recs.map specDecode }, none) ∧
     fileThreadMap EndToEnd.exFile = [(7, 41, "old"), (7, 42, "launchd")] :=
-  ⟨e2e_dump_of_encoded' _ EndToEnd.exFile_wf EndToEnd.exFile_first, by decide +kernel⟩
+  ⟨e2e_dump_of_encoded' _ _ EndToEnd.exFile_wf EndToEnd.exFile_first, by decide +kernel⟩
 
-example : EndToEnd.formattedTraces EndToEnd.exEnv {} {} (encodeV2 EndToEnd.exFile) =
+example : EndToEnd.formattedTraces EndToEnd.exEnv {} {} EndToEnd.noPlist (encodeV2 EndToEnd.exFile) =
     (["1 launchd(42)                       Process exit name: x",
       "2 launchd(42)                       New thread 9 of parent: 50",
       "3 (50)                              Process exit name: y",
@@ -257,7 +258,7 @@ example : EndToEnd.formattedTraces EndToEnd.exEnv {} {} (encodeV2 EndToEnd.exFil
 
 /-- K1 end to end: the file `k1File2` (first record all zeros) is well formed, the dump is readable, the thread map is
     right, but the trace layer receives ONE event instead of two. -/
-example : (EndToEnd.dumpOf (encodeV2 k1File2)).toOption.map (fun p => p.1.events.length) = some 1 := by
+example : (EndToEnd.dumpOf EndToEnd.noPlist (encodeV2 k1File2)).toOption.map (fun p => p.1.events.length) = some 1 := by
   decide +kernel
 
 end KdVerif.C02
